@@ -313,6 +313,18 @@ def atom_versions(timeout_ms=None):
     return rep
 
 
+def platform_parse(timeout_ms=None):
+    """C18: Platform.parse on every name of Platform.choices() (X_Y = any two integers), and parse(str(p)) == p"""
+    from pyvc import extract, verify
+    from contracts import platform_parse as PP
+    ix = extract.Index()
+    th = PP.PlatformTheory(ix)
+    rep = verify.verify_cases(ix, th, PP.Q, list(PP.cases(th)), timeout_ms=timeout_ms)
+    rep.functions[PP.Q]["hash"] = ix.func(PP.Q).source_hash()
+    rep.functions[PP.Q]["mode"] = "verified against its contract"
+    return rep
+
+
 # ---------------------------------------------------------------- C10
 MEMO_WHITELIST = {
     # lazy cache of MarkerExpression: only read through `specifier`, which fills it from _get_specifier() (a function of the compared
